@@ -48,7 +48,8 @@ claim('C16', 'other',
       'the new ones; the methods that rebuild the table are discovered by interpretation and their tolerance guards judged; point/T2t/t2T/length/'
       'start/end and every whole-path answer that may be memoised (isclosed, iscontinuous, bbox) after each mutation equal those of a fresh path; bpoints/poly/point/derivative/bbox/hash of a segment after reassigning a '
       'control point equal those of a fresh segment (whatever memo exists, however keyed; length() on concrete control points with hash() '
-      'adversarial); a reversed() copy never inherits a cache that is not valid for the current control points (F25 found and fixed). Numeric equality of recomputed values '
+      'adversarial; seg[i]/len/iteration after cache-filling queries); a reversed() copy never inherits a cache that is not valid for the current control '
+      'points (F25 found and fixed) nor a loosely measured length as a tight one. Numeric equality of recomputed values '
       'is not re-derived (determinism trusted).',
       TRUST + ' MutableSequence mixins reduce to insert/__setitem__/__delitem__ (collections.abc contract). Implicit exceptions '
       '(e.g. IndexError) are not CFG edges; R16.2 covers the one place where they matter.', 'DESIGN.md section 3 C16')
@@ -97,7 +98,9 @@ claim('C04', 'other',
       'theta and raw delta case tables and the +-360 adjustment (spec table under the stated feasibility lemma); cubic/quadratic '
       'approximations chained, end-point exact, joints on the arc, control points on the tangents; after construction start, end, rotation, phi, '
       'rot_matrix and the flags are the values the arguments define; 128 concrete quarter / three-quarter circles between axis points (all flags, '
-      'rotations 0/90/180/-90, two centres) get the exact centre, theta, delta, end points and intermediate axis points through the real constructor. '
+      'rotations 0/90/180/-90, two centres) get the exact centre, theta, delta, end points and intermediate axis points through the real constructor, '
+      'also when built one after the other with colliding hashes; every Arc handed out by scaled/rotated/translated/reversed/cropped/split carries the '
+      'derived state of its own fields; Path.approximate_arcs_with_* replaces each arc of a multi-arc path in place by its own chain. '
       'Not decided: point(0)=start and point(1)=end for general arcs as numeric statements (acos/sqrt/clip), monotonicity and minimality up to rounding.',
       TRUST + ' Relations used: cos^2+sin^2=1, sqrt(u)^2=u; clip() is treated as an uninterpreted function in the same places on both sides. '
       'Feasibility lemma (F.6.5 geometry): raw delta > 0 iff sweep != large_arc.', 'DESIGN.md section 3 C04')
@@ -188,7 +191,8 @@ claim('C11', 'other',
       'symbolic tol_deC, Python live list iteration) every examined sub-curve is the dyadic piece of its own input curve, each reported pair '
       'carries the mid parameters of an overlapping cell, and only on paths that know BOTH boxes to be below tol_deC; isclose() tests between '
       'positions in point_to_t are absolute (rtol=0); Arc.point_to_t maps the axis points of concrete axis circles, exact and displaced outward '
-      'by 1e-9 r, to their parameter (clamping of the inverse-trig arguments). Not decided: floating-point accuracy of subdivision and of the arc solvers '
+      'by 1e-9 r, to their parameter (clamping of the inverse-trig arguments); on concrete straight axis-parallel Beziers (zero-area boxes) the points '
+      'of every reported pair coincide. Not decided: floating-point accuracy of subdivision and of the arc solvers '
       '(1e-5 / 1e-3).', TRUST, 'DESIGN.md section 3 C11')
 
 claim('C12', 'other',
@@ -255,7 +259,8 @@ claim('C18', 'other',
       'whether the reader\'s name test matches what the writer serialises (one known finding: Document.save -> svg2paths, F22; F21 was found '
       'and repaired); elements created by add_path/add_group are in the namespace the Document searches; attribute pass-through in disvg '
       '(per-path and svg-level), add_path (d overrides, caller dict untouched), svg2paths (all attributes) and SaxDocument (own attribute > '
-      'own style > inherited); every element keeps its own path object and tag when several elements carry equal path data; order preservation; generate_dom writes the matrix in the permutation the matrix(...) reader inverts. '
+      'own style > inherited); every element keeps its own path object and tag when several elements carry equal path data; Document.save writes the '
+      'attribute values of the serialisation unchanged; two Documents created from scratch are independent; order preservation; generate_dom writes the matrix in the permutation the matrix(...) reader inverts. '
       'Not decided: svgwrite / ElementTree / minidom internals beyond the API model, d-string equality (C01).',
       TRUST + ' API model rows listed in the evidence assumptions.', 'DESIGN.md section 3 C18')
 
